@@ -280,3 +280,99 @@ func eolLen(buf []byte, e int) int {
 	}
 	return 1
 }
+
+// ---- IPv4 text (C20) ----
+
+func dig(buf []byte, p int) bool { return 0 <= p && p < len(buf) && isDigit(buf[p]) }
+
+// runLen4: length of the digit run starting at p, capped at 4
+func runLen4(buf []byte, p int) int {
+	if !dig(buf, p) {
+		return 0
+	}
+	if !dig(buf, p+1) {
+		return 1
+	}
+	if !dig(buf, p+2) {
+		return 2
+	}
+	if !dig(buf, p+3) {
+		return 3
+	}
+	return 4
+}
+
+// dval: value of the l (0..3) digits at p
+func dval(buf []byte, p, l int) int {
+	v := 0
+	if l >= 1 {
+		v = int(buf[p] - '0')
+	}
+	if l >= 2 {
+		v = v*10 + int(buf[p+1]-'0')
+	}
+	if l >= 3 {
+		v = v*10 + int(buf[p+2]-'0')
+	}
+	return v
+}
+
+// grpOK: a dotted group starts at p: 1..3 digits, value <= 255, followed by '.'
+func grpOK(buf []byte, p int) bool {
+	l := runLen4(buf, p)
+	return 1 <= l && l <= 3 && dval(buf, p, l) <= 255 && p+l < len(buf) && buf[p+l] == '.'
+}
+
+// grpStart: start of group k (0..3) of an address starting at p, given the groups before it are grpOK
+func grpStart(buf []byte, p, k int) int {
+	s := p
+	if k >= 1 {
+		s = s + runLen4(buf, s) + 1
+	}
+	if k >= 2 {
+		s = s + runLen4(buf, s) + 1
+	}
+	if k >= 3 {
+		s = s + runLen4(buf, s) + 1
+	}
+	return s
+}
+
+// grpsOK: groups 0..k-1 of an address starting at p are well formed and dot terminated
+func grpsOK(buf []byte, p, k int) bool {
+	return (k < 1 || grpOK(buf, grpStart(buf, p, 0))) && (k < 2 || grpOK(buf, grpStart(buf, p, 1))) &&
+		(k < 3 || grpOK(buf, grpStart(buf, p, 2)))
+}
+
+// lastLen: length of the last group starting at q: the longest prefix of its digit run with <= 3 digits and value <= 255
+func lastLen(buf []byte, q int) int {
+	l := runLen4(buf, q)
+	if l > 3 {
+		l = 3
+	}
+	if l == 3 && dval(buf, q, 3) > 255 {
+		l = 2
+	}
+	return l
+}
+
+// ip4At: a dotted quad (four groups of 1..3 digits, each <= 255) starts at p.
+// The verifier treats ip4At / ip4End as uninterpreted functions of the buffer content and the absolute
+// positions (so that a sub-slice buf[o:] at 0 and buf at o are the same thing), defined by ip4AtDef / ip4EndDef.
+func ip4At(buf []byte, p int) bool { return ip4AtDef(buf, p) }
+
+func ip4AtDef(buf []byte, p int) bool {
+	return 0 <= p && grpsOK(buf, p, 3) && dig(buf, grpStart(buf, p, 3))
+}
+
+// ip4End: end of the dotted quad starting at p, relative to p
+func ip4End(buf []byte, p int) int { return ip4EndDef(buf, p) }
+
+func ip4EndDef(buf []byte, p int) int {
+	return grpStart(buf, p, 3) + lastLen(buf, grpStart(buf, p, 3)) - p
+}
+
+// digsAt: the l (0..3) bytes at p are digits
+func digsAt(buf []byte, p, l int) bool {
+	return (l < 1 || dig(buf, p)) && (l < 2 || dig(buf, p+1)) && (l < 3 || dig(buf, p+2))
+}
